@@ -659,6 +659,23 @@ class KMeansL1L2(KMeans):
         self.n_iter_ = best_n_iter
         return self
 
+    def fit_transform(self, X, y=None, sample_weight=None):
+        """
+        Computes the clustering and transforms *X* to a cluster-distance space,
+        with the norm of the model (the inherited method returns
+        euclidean distances whatever the norm is).
+
+        :param X: {array-like, sparse matrix} of shape (n_samples, n_features)
+            New data to transform.
+        :param y: Ignored
+        :param sample_weight: sample weights
+        :return: X_new : array, shape [n_samples, k]
+            X transformed in the new space.
+        """
+        if self.norm == "L2":
+            return KMeans.fit_transform(self, X, y, sample_weight=sample_weight)
+        return self.fit(X, y, sample_weight=sample_weight).transform(X)
+
     def transform(self, X):
         """
         Transforms *X* to a cluster-distance space.
